@@ -139,7 +139,7 @@ func c30Model(c *ev.Ctx, r *rand.Rand, caseN int) {
 }
 
 func c30Blocking(c *ev.Ctx, r *rand.Rand, caseN int) {
-	kind := caseN % 7
+	kind := caseN % 8
 	T := time.Duration(60+r.Intn(60)) * time.Millisecond
 	const margin = time.Second
 	scenario := func() (string, map[string]interface{}) {
@@ -230,6 +230,24 @@ func c30Blocking(c *ev.Ctx, r *rand.Rand, caseN int) {
 				}
 				return "acquire-blocked-past-timeout-with-insufficient-releases", d
 			}
+		case 7: // an over-release resets the held amount to zero: a blocked request that now fits is granted at once
+			go func() { res <- s.Acquire(c30m(2, 50), 10*time.Second) }()
+			time.Sleep(T / 3)
+			rel := time.Now()
+			s.Release(c30m(4, 10)) // more than the 3 held
+			select {
+			case ok := <-res:
+				d["returned"], d["after_over_release"] = ok, time.Since(rel).String()
+				if !ok {
+					return "waiting-request-refused-after-over-release", d
+				}
+				if time.Since(rel) > margin {
+					return "waiting-request-granted-too-late", d
+				}
+			case <-time.After(4 * time.Second):
+				s.Terminate()
+				return "waiting-request-not-granted-after-over-release", d
+			}
 		case 6: // two waiters with different timeouts, nobody releases: each returns false at ITS OWN deadline
 			long := T + 1500*time.Millisecond
 			resL, resS := make(chan time.Duration, 1), make(chan time.Duration, 1)
@@ -307,7 +325,7 @@ func c30Blocking(c *ev.Ctx, r *rand.Rand, caseN int) {
 	c.Eval(1)
 	c.Count(fmt.Sprintf("blocking_scenarios_kind_%d", kind), 1)
 	if cls != "" {
-		detail["scenario_kind"] = []string{"fits", "oversize", "granted after release", "no release", "insufficient releases", "terminate", "two waiters with different timeouts"}[kind]
+		detail["scenario_kind"] = []string{"fits", "oversize", "granted after release", "no release", "insufficient releases", "terminate", "two waiters with different timeouts", "over-release while a request waits"}[kind]
 		c.Violation(cls, detail)
 		return
 	}
